@@ -57,9 +57,14 @@ struct ParameterListTraits
         (std::is_trivially_move_assignable_v<typename detail::ParameterTraits<Parameter>::ValueType> && ...);
     static constexpr auto IS_TRIVIALLY_SWAPPABLE =
         (detail::IS_TRIVIALLY_SWAPPABLE<typename detail::ParameterTraits<Parameter>::ValueType> && ...);
+    // Without AlignAs there is no padding between the objects of an element or between elements, only then may the
+    // bytes of whole elements be compared.
+    static constexpr auto IS_WITHOUT_PADDING = ((detail::ParameterTraits<Parameter>::ALIGNMENT == 1) && ...);
     static constexpr auto IS_EQUALITY_MEMCMPABLE =
+        IS_WITHOUT_PADDING &&
         (detail::EQUALITY_MEMCMP_COMPATIBLE<typename detail::ParameterTraits<Parameter>::ValueType> && ...);
     static constexpr auto IS_LEXICOGRAPHICAL_MEMCMPABLE =
+        IS_WITHOUT_PADDING &&
         (detail::LEXICOGRAPHICAL_MEMCMP_COMPATIBLE<typename detail::ParameterTraits<Parameter>::ValueType> && ...);
 
     static constexpr auto CONTIGUOUS_COUNT =
